@@ -5708,5 +5708,5 @@ func c02r13(c *Ctx, r *Report) {
 		})
 	}
 	r.ok("fzf+algo:products in platform int", token.NoPos, nil, fmt.Sprintf("%d capacity comparisons inspected", nCap))
-	r.floor("comparisons with a capacity", nCap, 3)
+	r.floor("comparisons with a capacity", nCap, 2)
 }
